@@ -10,7 +10,7 @@ TRUSTED_BASE = ["the kernel futex contract is modelled in SemModel (timespec val
 PARTIAL = ["C15_expired_prompt/C15_no_crash/C15_no_early_timeout are proved for the semaphore layer every timed entry point bottoms out in; the "
            "plumbing above it (sem_wait_with_cancel, wait_n's short-circuit, cv/mu/note/counter wait loops) is covered by the real-library grid, not by a theorem"]
 REPLAY_HINT = "_work/c15/drv_<build> <entry> <kind> <sec> <nsec>   (harness/seq/deadline_driver.c linked with the library built from /repo)"
-ENTRIES = ["cv", "mu", "note", "counter", "waitn"]
+ENTRIES = ["cv", "mu", "note", "counter", "waitn", "cvn", "mun", "rmun", "waitn5"]
 I64MAX = 2 ** 63 - 1
 NS = 10 ** 9
 
@@ -140,7 +140,8 @@ def run(tier, seed):
     res["coverage"] = {"evaluations": len(cases), "distinct_nontrivial": len([c for c in cases if c["expect"] != "none"]),
                        "rule": "boundary set of deadlines (0, +/-1 ns, +/-1 s, large negative, INT64_MIN, now-d, now, now+d, no_deadline; far future: "
                                "no_deadline - 1 ns, INT64_MAX s, now + 2^31 s, now + 2^62 s, 2^62 s, each with the awaited event produced after 100 ms) x "
-                               "{cv_wait_with_deadline, mu_wait_with_deadline, note_wait, counter_wait, wait_n} x {C build, C++ build} of the "
+                               "{cv_wait_with_deadline, mu_wait_with_deadline, note_wait, counter_wait, wait_n; cv wait / writer- and reader-mode mu wait WITH a cancel note "
+                               "that is never notified (ETIMEDOUT, not ECANCELED, is the timeout result); wait_n on five notes (heap path)} x {C build, C++ build} of the "
                                "real library on the real futex, one child process per case with a 15 s watchdog; early timeouts are judged against the deadline itself on CLOCK_REALTIME; non-trivial = all but no_deadline",
                        "builds": sorted(exes), "samples": cases[:3],
                        "traces_validated_against_impl": sem["coverage"].get("traces_validated_against_impl", 0),
